@@ -129,6 +129,12 @@ def compare(label, classes, start, expansion, g, rec, which="extract", closed=Fa
     ref_rec = {c.__name__ for c in model.recursive()}
     lib_rec = {c.__name__ for c in g.recursive_prods if isinstance(c, type) and c in ref_nodes}
     rec.count("recursive_symbols_seen", len(ref_rec))
+    ref_rec_strict = {c.__name__ for c in model.recursive(lists_may_be_empty=False)}
+    if ref_rec_strict != ref_rec and ref_rec_strict <= lib_rec <= ref_rec:
+        # a cycle that only exists if a production whose list of an uncompletable type stays EMPTY counts as a program:
+        # the documented ambiguity of possibly-empty lists; either reading is accepted
+        rec.count("recursion_decided_under_the_other_reading_of_empty_lists")
+        lib_rec = ref_rec
     if ref_rec != lib_rec:
         rec.violation(f"recursive:{which}:{'extra' if lib_rec - ref_rec else 'missing'}", dict(wit, library=sorted(lib_rec), reference=sorted(ref_rec)))
     # the start symbol's minimum drives every decider
@@ -209,7 +215,7 @@ def run_case(case, rec):
                 rec.sample({"grammar": label, "expansion": exp, "symbols": len(g.all_nodes), "min_depth": g.get_min_tree_depth()})
         return
     rng = pyrandom.Random(f"c05-{case['seed']}-{case['i']}")
-    desc = grammars.gen_descriptor(case["seed"] * 1000003 + case["i"], rng.choice(["general", "general", "finite", "dep", "weighted"]))
+    desc = grammars.gen_descriptor(case["seed"] * 1000003 + case["i"], rng.choice(["general", "general", "finite", "dep", "weighted", "unproductive-part"]))
     if case["i"] < len(grammars.FIXED):
         desc = dict(grammars.FIXED[case["i"]])
     desc["expansion"] = rng.random() < 0.3
